@@ -17,6 +17,18 @@ CHECKS = {
             "the scripts are re-entrant programs; the abstract spec is the snapshot/cursor semantics of the statement; hangs (lock held across a "
             "callback) and freed-memory accesses are observed by watchdog and ASan on every execution.",
             "TLA+ model checking (TLC) + transition-cover replay of re-entrant programs + TLC trace validation"),
+    "C15": (MC, "7/C15", "seq",
+            "RemGen.tla is the reference state machine of ScopedRemover (who answers for which listener, target, liveness) with the statement's "
+            "invariants checked by TLC on all bounded histories of add/remove through removers, reset, setDispatcher, move construction, move "
+            "assignment into empty and non-empty removers, swap and destruction in any order over two dispatchers; its transition cover runs on "
+            "the real ScopedRemover<EventDispatcher/EventQueue>; TraceDQ.tla tracks responsibility and rejects any listener left attached with "
+            "nobody answering for it, any foreign listener touched, any wrong removeListener result.",
+            "TLA+ model checking (TLC) of the reference model + transition-cover replay + TLC trace validation"),
+    "C16": (MC, "7/C16", "seq",
+            "RemGen.tla models CounterRemover listeners (triggers left = max(n,1), detached before their last run) and ConditionalRemover listeners "
+            "(scripted condition per trigger) under direct, nested (re-dispatch from the wrapped listener) and queued triggers; the cover runs on "
+            "the real helpers (created as temporaries) over EventDispatcher/EventQueue worlds; TraceDQ.tla demands exactly the promised invocations.",
+            "TLA+ model checking (TLC) of the reference model + transition-cover replay + TLC trace validation"),
     "C19": (MC, "7/C19", "seq",
             "CLImpl.tla with the counter maximum scaled down so the wrap-around falls at every position of every bounded history; the guarded hook "
             "puts the real 32-bit counter at the same distance from 2^32-1; TraceCL.tla allows the one freedom the statement grants (invocations in "
